@@ -116,7 +116,8 @@ def sweep_binary(ctx, bdd, sp, R, tt_of, syms, order, pairs=None,
         it = pairs if pairs is not None else (
             (i, j) for i in range(256) for j in range(256))
         for i, j in it:
-            r = ap(sym, R[i], R[j])
+            r = ap(sym, R[i], R[j]) if (i + j) % 5 else \
+                ap(op=sym, u=R[i], v=R[j])
             n += 1
             nt += NT[i] and NT[j]
             if tt_of.get(r, -1) != f(i, j):
